@@ -376,7 +376,9 @@ pub fn generate(seed: u64, cases: usize, out: &mut dyn FnMut(String)) {
         };
         let qorder = if i % 5 == 0 { order + 1 } else { order }.min(24);
         let precision = 1 + rng.below(15) as usize;
-        let shift = rng.below(16) as i8;
+        // mostly valid shifts; sometimes a negative one (a 5-bit two's-complement field in the format, but the
+        // writer cannot serialise it: the constructor must refuse)
+        let shift = if i % 11 == 3 { *rng.pick(&[-1i8, -16, -8]) } else { rng.below(16) as i8 };
         let cmax = (1i64 << (precision - 1)) - 1;
         let cmin = -(1i64 << (precision - 1));
         let coefs: Vec<i16> = (0..qorder).map(|_| rng.range(cmin, cmax) as i16).collect();
@@ -441,7 +443,7 @@ pub fn generate(seed: u64, cases: usize, out: &mut dyn FnMut(String)) {
         });
         out(finish(head, res));
     };
-    for &n in &[0usize, 1, 2, 16, 191, 192, 193, 255, 256, 257, 576, 1000, 1152, 4096, 4608, 16384, 32767, 32768, 65535, 65536, 65537, (1usize << 32) + 192, usize::MAX] {
+    for &n in &[0usize, 1, 2, 16, 191, 192, 193, 255, 256, 257, 576, 768, 1000, 1152, 1728, 2304, 4096, 4608, 9216, 16384, 18432, 32767, 32768, 65535, 65536, 65537, (1usize << 32) + 192, usize::MAX] {
         header_case(n, 2, 16, 44100, false, 0, out);
     }
     for a in 0..asgs.len() {
